@@ -50,8 +50,14 @@ class CacheRun:
         scen_ev.append({'e': 'Fwd', 'id': step['id'], 'cond': bool(cond), 'method': q.method,
                         'inm_hdr': q.head.get('If-None-Match') or '', 'ims_hdr': q.head.get('If-Modified-Since') or '',
                         'hdrs': [[n, v] for n, v in q.head.fields], 'blen': len(q.body)})
-        if cond and 'on_cond' in o:
+        if cond and 'on_cond' in o and self._cond_matches(q, o['on_cond'].get('require')):
             o = dict(o, **o['on_cond'])
+        if o.get('clock_add') and not cond:
+            # the origin takes clock_add seconds (of squid's clock) to answer: the driver moves the clock while squid waits
+            newt = self.offset - self.base + o['clock_add']
+            self.set_clock(newt)
+            scen_ev.append({'e': 'Clock', 't': newt})
+            await asyncio.sleep(0.01)
         status = o.get('status', 200)
         v = next_version()
         blen = o.get('blen', 100) if status not in (204, 304) and q.method != 'HEAD' else 0
@@ -91,6 +97,25 @@ class CacheRun:
         if framing == 'close' and status not in (204, 304):
             oc.close()
             return True
+        return False
+
+    def _cond_matches(self, q, require):
+        """a correct origin: 304 only if the request's validators match its current entity (require = {'etag', 'lm'})"""
+        if not require:
+            return True
+        inm = q.head.get('If-None-Match')
+        if inm is not None:
+            mine = (require.get('etag') or '').replace('W/', '')
+            toks = [t.strip().replace('W/', '') for t in inm.split(',')]
+            return '*' in toks or (mine != '' and mine in toks)
+        ims = q.head.get('If-Modified-Since')
+        if ims is not None:
+            import email.utils
+            try:
+                t = email.utils.parsedate_to_datetime(ims).timestamp()
+            except Exception:
+                return False
+            return t >= int(self.now() + require.get('lm', 0)) - 1
         return False
 
     def _subst_url(self, val, sid):
@@ -178,6 +203,12 @@ class CacheRun:
                 gen = int(r.head.get('X-Verif-Gen'))
             except ValueError:
                 gen = -2
+        multi = []
+        if r.head is not None:
+            for v in r.head.get_all('X-Verif-Multi'):
+                for t in v.split(','):
+                    if t.strip().isdigit():
+                        multi.append(int(t.strip()))
         age = -1
         if r.head is not None and r.head.get('Age'):
             try:
@@ -186,7 +217,7 @@ class CacheRun:
                 age = -2
         return {'e': 'CResp', 'id': step['id'], 'status': r.status if r.status is not None else 0, 'hv': hv, 'bv': bv,
                 'blen': len(r.body), 'intact': bool(intact), 'complete': bool(r.complete), 'declared': r.declared if r.declared is not None else -1,
-                'hit': ';hit' in cs, 'age': age, 'gen': gen, 'squid': (r.head is None or not r.head.has('X-Verif-Origin')),
+                'hit': ';hit' in cs, 'age': age, 'gen': gen, 'multi': sorted(multi), 'squid': (r.head is None or not r.head.has('X-Verif-Origin')),
                 'hdrs': [[n, v] for n, v in r.head.fields] if r.head is not None else []}
 
 
